@@ -65,6 +65,11 @@ func (r *Raw) UnmarshalJSON(b []byte) error {
 	if r == nil {
 		return errors.New("sup.Raw: UnmarshalJSON on nil pointer")
 	}
+	if string(b) == "null" {
+		// symmetric with MarshalJSON (nil <-> null), so that values round-trip
+		*r = nil
+		return nil
+	}
 	*r = append((*r)[0:0], b...)
 	return nil
 }
